@@ -74,11 +74,11 @@ def _derivative_integral(E: Coefficients, eigvals: Coefficients, dt: float,
     """
     # Precompute masks and energy differences
     dE = np.subtract.outer(eigvals, eigvals)
-    mask_dE = np.abs(dE) < 1e-7
+    mask_dE = np.abs(dE*dt) < 1e-7
     EdE = np.add.outer(E, dE)
-    mask_EdE = np.abs(EdE) < 1e-7
+    mask_EdE = np.abs(EdE*dt) < 1e-7
     EdEdE = np.add.outer(EdE, dE[~mask_dE])
-    mask_EdEdE = np.abs(EdEdE) < 1e-7
+    mask_EdEdE = np.abs(EdEdE*dt) < 1e-7
 
     # Case Omega_pq == 0
     tmp1 = np.divide(util.cexp(EdE*dt), EdE, where=~mask_EdE)
